@@ -1212,3 +1212,105 @@ func init() {
 		},
 	}
 }
+
+func init() {
+	props["C09"] = &propDef{
+		ID: "C09",
+		Anchored: []string{").Inner", ").MatVecMul", ").MatMul", ").Outer", ").TensorMul", ").Trace", "tensor.Dot", "tensor.Contract", "tensor.MatMul", "tensor.MatVecMul", "tensor.Inner", "tensor.Outer", "StdEng).Dot", "StdEng).Inner", "StdEng).MatVecMul", "StdEng).MatMul",
+			"StdEng).Outer", "StdEng).Trace", "handleReuse", "handleIncr"},
+		Bounds: map[string]interface{}{"arithmetic": "ring mode: float and complex elements are mathematical integers, + - x exact (this is the statement's 'exactly for integer-valued inputs' clause; rounding for non-integer inputs is outside the claim)",
+			"blas": "gonum's Sdot/Ddot/C,Zdotu, gemv, gemm, ger(u) replaced by the reference semantics of the row-major BLAS interface including argument checks (bad leading dimension, short slices, illegal transpose -> panic)",
+			"shapes": "quick: dims<=3 vectors, dims<=2..3 matrices, rank-3 contractions with dims<=2; thorough: dims<=3 (vectors <=4), rank 3-4 contractions", "layouts": "C, lazily transposed, column-major, sliced view, step-sliced view, materialised - per operand",
+			"modes": "safe, reuse, incr"},
+		Assume: []string{"BLAS reference model instead of gonum's implementation (its own arithmetic and assembly kernels are outside the claim)"},
+		Instances: func(tier string, seed int64) []Instance {
+			var out []Instance
+			lays := []string{"C", "LT", "F", "S", "SS", "M"}
+			dts := []string{"float64", "float32", "complex128", "complex64"}
+			n := 0
+			add := func(routine string, sa, sb []int, la, lb, mode, api string, extra map[string]interface{}) {
+				if !layoutOK(sa, strings.Replace(la, "LT", "T", 1)) || (sb != nil && !layoutOK(sb, strings.Replace(lb, "LT", "T", 1))) {
+					return
+				}
+				n++
+				dt := dts[n%len(dts)]
+				if api == "dot" && mode == "incr" {
+					dt = dts[n%2] // Dot refuses complex increments: exercise the float path
+				}
+				cfg := map[string]interface{}{"dtype": dt, "routine": routine, "sa": sa, "sb": sb, "la": la, "lb": lb, "mode": mode, "api": api}
+				for k, v := range extra {
+					cfg[k] = v
+				}
+				in := mkInst("vhC09", cfg, "dtype", "routine", "sa", "sb", "la", "lb", "mode", "api")
+				if extra != nil {
+					in.Name += fmt.Sprintf("/%v-%v", extra["axesA"], extra["axesB"])
+				}
+				in.Ring = true
+				out = append(out, in)
+			}
+			vecs := [][]int{{3}, {3, 1}, {1, 3}}
+			for _, va := range vecs {
+				for _, vb := range vecs {
+					for i, la := range lays {
+						for j, lb := range lays {
+							if tier == "quick" && (i+j)%3 != 0 && !(la == "C" && lb == "C") {
+								continue
+							}
+							if len(va) == 1 && len(vb) == 1 {
+								add("Inner", va, vb, la, lb, "", []string{"method", "func"}[(i+j)%2], nil)
+							}
+							if len(va) == 1 && len(vb) == 1 || tier == "thorough" {
+								add("Outer", va, vb, la, lb, []string{"", "reuse", "incr"}[(i+j)%3], []string{"method", "func"}[(i+j)%2], nil)
+							}
+						}
+					}
+				}
+			}
+			mats := [][2][]int{{{2, 3}, {3, 2}}, {{2, 2}, {2, 2}}, {{1, 3}, {3, 2}}, {{3, 1}, {1, 2}}}
+			if tier == "thorough" {
+				mats = append(mats, [2][]int{{3, 3}, {3, 3}}, [2][]int{{3, 2}, {2, 1}})
+			}
+			for _, mm := range mats {
+				for i, la := range lays {
+					for j, lb := range lays {
+						for mi, mode := range []string{"", "reuse", "incr"} {
+							if tier == "quick" && (i+j+mi)%3 != 0 && !(la == "C" && lb == "C") {
+								continue
+							}
+							add("MatMul", mm[0], mm[1], la, lb, mode, []string{"method", "func", "dot"}[(i+j+mi)%3], nil)
+						}
+					}
+					for mi, mode := range []string{"", "reuse", "incr"} {
+						for j, lb := range lays {
+							if tier == "quick" && (i+j+mi)%3 != 0 {
+								continue
+							}
+							add("MatVecMul", mm[0], []int{mm[0][1]}, la, lb, mode, []string{"method", "func"}[(i+mi)%2], nil)
+						}
+					}
+					add("Trace", mm[0], nil, la, "C", "", "method", nil)
+				}
+			}
+			type tm struct {
+				sa, sb []int
+				aa, ab []int
+			}
+			tms := []tm{{[]int{2, 2, 2}, []int{2, 2}, []int{2}, []int{0}}, {[]int{2, 2, 2}, []int{2, 2, 2}, []int{1, 2}, []int{0, 1}}, {[]int{2, 3}, []int{3, 2}, []int{1}, []int{0}}, {[]int{2, 2, 2}, []int{2, 2, 2}, []int{0}, []int{2}},
+				{[]int{2, 2, 2}, []int{2, 2, 2}, []int{2, 0}, []int{1, 0}}, {[]int{2, 2}, []int{2, 2, 2}, []int{0}, []int{1}}}
+			if tier == "thorough" {
+				tms = append(tms, tm{[]int{2, 2, 2, 2}, []int{2, 2}, []int{3}, []int{0}}, tm{[]int{2, 2, 2, 2}, []int{2, 2, 2}, []int{1, 3}, []int{0, 2}}, tm{[]int{2, 3, 2}, []int{2, 3}, []int{1}, []int{1}})
+			}
+			for _, t := range tms {
+				for i, la := range []string{"C", "LT", "F", "S"} {
+					for j, lb := range []string{"C", "LT", "F", "S"} {
+						if tier == "quick" && (i+j)%2 != 0 {
+							continue
+						}
+						add("TensorMul", t.sa, t.sb, la, lb, "", []string{"method", "func"}[(i+j)%2], map[string]interface{}{"axesA": t.aa, "axesB": t.ab})
+					}
+				}
+			}
+			return out
+		},
+	}
+}
